@@ -73,7 +73,13 @@ void *KSI_malloc(size_t n) {
 		unsigned char *b = malloc(EV_MOBJ);
 		if (b == NULL) return NULL;
 		__CPROVER_assert(g_mo_n < EV_NMO, "harness: model-object table is large enough");
+#if defined(EV_PLACE_START)
+		p = b;
+#elif defined(EV_PLACE_END)
+		p = b + (EV_MOBJ - n);
+#else
 		p = nondet_bool() ? b : b + (EV_MOBJ - n);
+#endif
 		g_mo_ptr[g_mo_n] = p; g_mo_base[g_mo_n] = b; g_mo_n++;
 	} else p = malloc(n);
 	if (p != NULL) g_live++;
@@ -313,14 +319,19 @@ static void one(unsigned pat) {
 
 	/* ---- reading the value back ------------------------------------------------------------------------------------------------ */
 	live1 = g_live; out = sentinel;
+#ifdef EV_NO_GET
+	res2 = KSI_UNKNOWN_ERROR;       /* set-only job: the get direction is decided by the elval_*_get_* jobs on arbitrary leaves + C09.elval_lemma_int */
+	if (0) {
+#else
 	res2 = EV_GET(P, CTX, q_tag, &out);
 	if (res == KSI_OK) {
+#endif
 		__CPROVER_assert(res2 == KSI_OK, "value api: get after a successful set succeeds");
 		__CPROVER_assert(IMPLIES(res2 == KSI_OK, out != sentinel && out != NULL && val_equals(out)), "value api: set-then-get returns an equal value");
 #if !defined(EV_T_INT)
 		__CPROVER_assert(IMPLIES(res2 == KSI_OK, out != val && val_ref(out) == 1), "value api: get returns a new value object with one reference");
 #endif
-	} else if (cnt >= 2) {
+	} else if (cnt >= 2 && res2 != KSI_UNKNOWN_ERROR) {
 		__CPROVER_assert(res2 == KSI_INVALID_STATE && out == sentinel, "value api: get is INVALID_STATE and leaves the output alone when several children carry the tag");
 	}
 	if (res2 != KSI_OK) out = NULL;
@@ -414,7 +425,7 @@ static void one(unsigned pat) {
 			}
 #else
 			__CPROVER_assert(IFF(res == KSI_OK, spec_utf8_wellformed(pl, plen)), "value get: a string is accepted iff NUL-terminated, without embedded NUL, well-formed UTF-8");
-			__CPROVER_assert(IMPLIES(res != KSI_OK, res == KSI_INVALID_FORMAT), "value get: a malformed string is refused with INVALID_FORMAT");
+			__CPROVER_assert(IMPLIES(res != KSI_OK, res == KSI_INVALID_FORMAT || res == KSI_BUFFER_OVERFLOW), "value get: a malformed string is refused with INVALID_FORMAT (BUFFER_OVERFLOW for a character cut short by the end, types_base.c verifyUtf8)");
 			if (res == KSI_OK) {
 				size_t kb = nondet_size();
 				__CPROVER_assert(out != NULL && out != sentinel && KSI_Utf8String_size(out) == plen, "value get: string size = payload length incl. terminator");
@@ -437,7 +448,13 @@ static void one(unsigned pat) {
 	REACH("value get returns");
 #if EV_NK >= 1
 	if (res == KSI_OK && cnt == 1) REACH("value read");
+#if defined(EV_T_INT)
+	if (res == KSI_OK && cnt == 1 && plen == 8) REACH("8-octet integer read");
+	if (res == KSI_OK && cnt == 1 && plen == 0) REACH("empty payload read as 0");
+	if (res == KSI_INVALID_FORMAT && cnt == 1 && plen == 9) REACH("9-octet integer refused");
+#else
 	if (res == KSI_OK && cnt == 1 && plen == EV_CMAXP) REACH("longest payload read");
+#endif
 #if !defined(EV_T_OCT) && !defined(EV_OOM)
 	if (res == KSI_INVALID_FORMAT) REACH("malformed value refused");
 #endif
